@@ -11,7 +11,6 @@ Definition cw_wit_attrs : cw_dlist :=
 Definition cw_wit_host : cw_bytes := [72; 111; 115; 116].
 
 Theorem cw_structure_refuted_search :
-  cw_nul_free cw_wit_key /\
   exists txt it,
     cw_emit_item_m CwSearch true cw_wit_host [104] false [] cw_wit_attrs = Some txt /\
     cw_parse_text txt = Some it /\
@@ -19,7 +18,6 @@ Theorem cw_structure_refuted_search :
                      (CwDict (DCons [120] (CwNum false [1] []) (DCons [122] (CwStr [118]) DNil)))] /\
     Some it <> cw_expect_item cw_wit_host [104] false [] cw_wit_attrs.
 Proof.
-  split; [repeat constructor; discriminate|].
   eexists. eexists. split; [vm_compute; reflexivity|]. split; [vm_compute; reflexivity|].
   split; [reflexivity|]. vm_compute. intros H. discriminate H.
 Qed.
@@ -44,15 +42,12 @@ Example cw_number_half_even :
   cw_emit_number false [0] [9; 9; 9; 9; 9; 9; 5] = [49; 46; 48; 48; 48; 48; 48; 48].
 Proof. split; vm_compute; reflexivity. Qed.
 
-(* F-C17-c.  As long as the chunk rule copies with `while ( *yptr )`: the rest of the chunk after a NUL is lost *)
+(* F-C17-c.  The pinned chunk rule (copy with `while ( *yptr )`, mode whole = false): the rest of the chunk
+   after a NUL is lost *)
 Theorem cw_nul_truncation_refuted :
-  cw_chunk_whole = false ->
-  cw_lex_string (cw_emit_string [97; 98; 0; 99; 100]) = Some [97; 98] /\
-  cw_lex_string (cw_emit_string [97; 0; 98; 34; 99]) = Some [97; 34; 99].
-Proof.
-  intros H. unfold cw_lex_string, cw_emit_string.
-  split; cbn [cw_escape]; vm_compute in H |- *; try rewrite H; try reflexivity.
-Qed.
+  cw_lex_string_m false (cw_emit_string [97; 98; 0; 99; 100]) = Some [97; 98] /\
+  cw_lex_string_m false (cw_emit_string [97; 0; 98; 34; 99]) = Some [97; 34; 99].
+Proof. split; vm_compute; reflexivity. Qed.
 
 (* F-C17-d.  Template names are written raw between double quotes: a quote + newline ends the import
    and what follows is parsed as a statement of the object body *)
